@@ -13,7 +13,7 @@ import reactivex.operators as ops
 from reactivex import Observable
 from reactivex.internal.constants import UTC_ZERO
 from reactivex.notification import OnCompleted, OnError, OnNext
-from reactivex.scheduler import PeriodicScheduler
+from reactivex.scheduler.periodicscheduler import PeriodicScheduler
 from reactivex.subject import ReplaySubject, Subject
 
 from .. import registry as R
